@@ -957,6 +957,13 @@ func TestVerif_C10S(t *testing.T) {
 			id++
 		}
 	}
+	// an arrival whose table lookup precedes close()'s clean and whose add follows it, moved into recvBuf by a
+	// goroutine that close()'s Wait missed (spawned between the CAS on callbackInProcess and wg.Add)
+	o.emit(c20Run(env, c20Case{ID: id, Kind: "late-arrival-residue", Strat: "fixed-prefix", Cmp: true, Cb0: true, NCl: 1, Inb: [][]int{{1}, {2}}},
+		func() vsChooser {
+			return c20PrefixChooser([]int{1, 1, 0, 0, 0, 0, 0, 1, 1, 1, 0, 0, 1, 1, 1, 1, 0, 0, 2, 2, 2, 2, 2, 2, 2, 2, 2, 2, 2, 2, 2, 2})
+		}, 600))
+	id++
 	o.emit(c20Run(env, c20Case{ID: id, Kind: "witness-cas-race", Strat: "fixed-prefix", Cmp: true, Cb0: false, NCl: 1, Inb: [][]int{{}}},
 		func() vsChooser { return c20PrefixChooser([]int{1, 1, 0, 0, 1}) }, 3000))
 	id++
